@@ -13,6 +13,11 @@
 (***************************************************************************)
 EXTENDS Naturals, Sequences, FiniteSets
 
+(* A member line may reference another group (IOS "group-object NAME"):    *)
+(* RefOf(line) is that name, "" for an ordinary member.  Supplied by the   *)
+(* instance (token test in the trace instance, a table in the MC one).     *)
+CONSTANT RefOf(_)
+
 SeqToSet(s) == {s[i] : i \in 1..Len(s)}
 AclSecs(cfg) == SelectSeq(cfg, LAMBDA s : s.kind = "acl")
 GroupSecs(cfg, n) == SelectSeq(cfg, LAMBDA s : s.kind = "group" /\ s.name = n)
@@ -20,8 +25,18 @@ GroupSecs(cfg, n) == SelectSeq(cfg, LAMBDA s : s.kind = "group" /\ s.name = n)
 (* interfaces that apply ACL `n` in direction `dir` *)
 Bound(cfg, n, dir) == {cfg[i].name : i \in {j \in 1..Len(cfg) : cfg[j].kind = "intf" /\ <<n, dir>> \in SeqToSet(cfg[j].binds)}}
 
-(* the member lines an ACE address naming group `g` gets: those of the one section defining g, else none *)
-MembersFor(cfg, g) == IF Len(GroupSecs(cfg, g)) = 1 THEN GroupSecs(cfg, g)[1].body ELSE <<>>
+(* the member lines an ACE address naming group `g` gets: those of the one section defining g, else none; a member
+   that references another group stands for that group's members (recursively; an undefined or doubly defined
+   group, or one already being expanded, stands for nothing) - the result is a flat list of ordinary members *)
+RECURSIVE FlatMembers(_, _, _)
+FlatMembers(cfg, g, seen) ==
+  IF g \in seen \/ Len(GroupSecs(cfg, g)) # 1 THEN <<>>
+  ELSE LET body == GroupSecs(cfg, g)[1].body
+           RECURSIVE Go(_)
+           Go(k) == IF k > Len(body) THEN <<>>
+                    ELSE (IF RefOf(body[k]) = "" THEN <<body[k]>> ELSE FlatMembers(cfg, RefOf(body[k]), seen \cup {g})) \o Go(k + 1)
+       IN  Go(1)
+MembersFor(cfg, g) == FlatMembers(cfg, g, {})
 
 (* what acls(config, names=filter) returns, as a sequence of records in configuration order *)
 Wanted(cfg, filter) == SelectSeq(AclSecs(cfg), LAMBDA s : filter = {"*"} \/ s.name \in filter)
